@@ -173,12 +173,20 @@ def run_one(ch, cfg):
         if faulty_run and not arm.get("cooldown") and not pending and ch.draw(4, "link-fault") == 1:
             arm["at"] = w.link.index + ch.draw(10, "link-fault.at")
             arm["kind"] = ["timeout_after", "timeout_before", "read_err_after", "read_err_before",
-                           "write_err"][ch.draw(5, "link-fault.kind")]
+                           "write_err", ("sw", 0x6B11), ("sw", 0x6A8F), ("sw", 0x6B87),
+                           ("sw", 0x6E00)][ch.draw(9, "link-fault.kind")]
+            if isinstance(arm["kind"], tuple) and arm["kind"][1] == 0x6E00 and \
+                    obj.get("command") in ("getPubKey",):
+                arm["kind"] = ("sw", 0x6A8F)     # (a status outside the device's range ends the manager
+                #                                   on getPubKey / sign by design: not this check's subject)
         rep, exc = w.request(obj)
         fired = arm.get("fired")
         arm.pop("at", None)
         arm["cooldown"] = bool(fired)
-        excused = bool(fired) and exc is None and isinstance(rep, dict) and rep.get("errorcode") == -905
+        # a device-side error status (injected) may be reported with whatever negative code documents it
+        excused = bool(fired) and exc is None and isinstance(rep, dict) and (
+            rep.get("errorcode") == -905 or (isinstance(fired, tuple) and type(rep.get("errorcode")) is int
+                                             and rep.get("errorcode") < 0))
         return rep, exc, excused
 
     def query_round(S):
